@@ -262,7 +262,7 @@ pub fn c15(tier: Tier) -> ! {
     let mut coords: Vec<f64> = vec![0., -0.0, 1e-300, -1e-300, 2f64.powi(-60), -(2f64.powi(-60)), 1e-17, -1e-17, 0.1, -0.1, 0.25, -0.25, 0.375, -0.375];
     let below_half = f64::from_bits(h.to_bits() - 1);
     let above_half = f64::from_bits(h.to_bits() + 1);
-    for v in [below_half, h, above_half, 0.75, 1.0, 1.5, 7.25, 2.0 - 2f64.powi(-52)].iter() {
+    for v in [below_half, h, above_half, 0.75, 1.0, 1.5, 7.25, 2.0 - 2f64.powi(-52), 0.5 - 1e-8, 0.5 - 1e-10, 1e-8].iter() {
         coords.push(*v);
         coords.push(-*v);
     }
@@ -711,6 +711,30 @@ pub fn c13(tier: Tier) -> ! {
         }
     }
     run.set("unlike_pair_evaluations", unlike);
+    // a shifted potential is continuous: no jump anywhere on a fine ladder of distances, for
+    // particles that differ in their cutoffs (and sigmas)
+    let mut scanned = 0u64;
+    for &(s1, c1, s2, c2) in [(1f64, Some(3f64), 1f64, Some(4f64)), (1., Some(2.), 1., Some(5.)), (1., Some(2.5), 1.4, Some(3.5)), (0.5, Some(1.), 2., Some(3.5)), (1., Some(3.), 1., None)].iter() {
+        let top = 1.1 * c1.unwrap_or(0f64).max(c2.unwrap_or(0.)).max(4.);
+        let n = 40_000;
+        let mut prev: Option<(f64, f64)> = None;
+        for i in 0..=n {
+            let r = 1.05 * s1.max(s2) + (top - 1.05 * s1.max(s2)) * i as f64 / n as f64;
+            let e = lj(0., 0., s1, 1., c1).energy(&lj(r, 0., s2, 2., c2));
+            scanned += 1;
+            evals += 1;
+            if let Some((pr, pe)) = prev {
+                // steepest the uncut law can be here, times the step, with a wide margin
+                let slope = 4. * 2. * (12. * (s1.max(s2) / pr).powi(12) + 6. * (s1.max(s2) / pr).powi(6)) / pr;
+                if (e - pe).abs() > 20. * slope * (r - pr) + 1e-12 {
+                    run.fail(None, &format!("unlike particles: the energy jumps from {:e} at r = {} to {:e} at r = {} (a shifted potential is continuous)", pe, pr, e, r), json!({"engine": "continuity", "a": {"sigma": s1, "cutoff": c1}, "b": {"sigma": s2, "cutoff": c2}, "r": r}));
+                    break;
+                }
+            }
+            prev = Some((r, e));
+        }
+    }
+    run.set("unlike_pair_distances_scanned_for_jumps", scanned);
     // the same unlike pairs again in the opposite order, and strided: the value of a pair is the
     // same whatever was evaluated before it
     let mut second_pass = 0u64;
@@ -794,9 +818,16 @@ pub fn c13(tier: Tier) -> ! {
     zoo.push(LJShape2 { name: "single".into(), items: vec![lj(0., 0., 1., 1., Some(2.5))] });
     zoo.push(LJShape2 { name: "rod".into(), items: (0..7).map(|k| lj(k as f64 * 1.1 - 3.3, 0., 1., 1., Some(2.5))).collect() });
     zoo.push(LJShape2 { name: "L".into(), items: vec![lj(0., 0., 1.2, 2., Some(3.)), lj(1.3, 0., 0.9, 0.5, Some(3.)), lj(0., 1.6, 1., 1., None)] });
+    // (5, 9 and 11 particles: with the rod, pair counts 25 .. 121, odd and even, above and below any
+    // block size a sum may be split into)
+    zoo.push(LJShape2 { name: "ring5".into(), items: (0..5).map(|k| lj((k as f64 * 1.2566).cos() * 1.1, (k as f64 * 1.2566).sin() * 1.1, 1., 1., Some(2.5))).collect() });
+    zoo.push(LJShape2 { name: "grid9".into(), items: (0..9).map(|k| lj((k % 3) as f64 * 1.1 - 1.1, (k / 3) as f64 * 1.1 - 1.1, 1., 1., Some(2.5))).collect() });
+    zoo.push(LJShape2 { name: "chain11".into(), items: (0..11).map(|k| lj(k as f64 * 1.05 - 5.25, 0.2 * (k % 2) as f64, 1., 1., None)).collect() });
     for (ia, a) in zoo.iter().enumerate() {
         for (ib, b) in zoo.iter().enumerate() {
-            if ia == ib {
+            // (a molecule against a placed copy of itself only for the larger ones: the small ones
+            // are covered above)
+            if ia == ib && a.items.len() < 5 {
                 continue;
             }
             for k in 0..48 {
@@ -929,8 +960,8 @@ pub fn c12(tier: Tier) -> ! {
         for (ri, rot) in rots.iter().enumerate() {
             // 0: proper rotation; 1: mirror in the y axis, then rotated; 2, 3: the mirrors in the
             // diagonals x = y and x = -y ("y, x" and "-y, -x": linear part with an exactly zero
-            // diagonal), then rotated
-            for mirror in 0..4u8 {
+            // diagonal), then rotated; 4: the mirror in the x axis
+            for mirror in 0..5u8 {
                 if mirror >= 2 && ri > tier.pick(1, 5) {
                     continue;
                 }
@@ -958,8 +989,11 @@ pub fn c12(tier: Tier) -> ! {
             1 => Aff::rot_trans(*rot, [0., 0.]).after(&Aff::mirror_x()),
             2 if *rot == 0. => Aff { m: [[0., 1.], [1., 0.]], t: [0., 0.] },
             2 => Aff::rot_trans(*rot, [0., 0.]).after(&Aff { m: [[0., 1.], [1., 0.]], t: [0., 0.] }),
-            _ if *rot == 0. => Aff { m: [[0., -1.], [-1., 0.]], t: [0., 0.] },
-            _ => Aff::rot_trans(*rot, [0., 0.]).after(&Aff { m: [[0., -1.], [-1., 0.]], t: [0., 0.] }),
+            3 if *rot == 0. => Aff { m: [[0., -1.], [-1., 0.]], t: [0., 0.] },
+            3 => Aff::rot_trans(*rot, [0., 0.]).after(&Aff { m: [[0., -1.], [-1., 0.]], t: [0., 0.] }),
+            // the mirror in the x axis ("x, -y"), exactly
+            _ if *rot == 0. => Aff { m: [[1., 0.], [0., -1.]], t: [0., 0.] },
+            _ => Aff::rot_trans(*rot, [0., 0.]).after(&Aff { m: [[1., 0.], [0., -1.]], t: [0., 0.] }),
         };
         // translations: Cartesian grid + aligned set
         let mut trans: Vec<P2> = vec![];
@@ -1080,6 +1114,51 @@ pub fn c12(tier: Tier) -> ! {
             run.fail(k, &w, c);
         }
     }
+    // copies turned by an angle within 1e-7 of a multiple of a right angle, placed through the
+    // crate's own constructor (angle, position): contacts deeper or wider than the tolerance
+    // keep their answer
+    let mut near_axis = 0u64;
+    for (name, spec) in shapes.iter() {
+        let shape = to_test_shape(spec);
+        let body = shape.body();
+        let r = body.enclosing_radius();
+        for &base in [0., PI / 2., PI].iter() {
+            for &eps in [5e-8, -8e-8, 1.1e-7].iter() {
+                let rot = base + eps;
+                let lin = Aff::rot_trans(rot, [0., 0.]);
+                for k in 0..24 {
+                    let dir = [(0.3 + k as f64 * PI / 12.).cos(), (0.3 + k as f64 * PI / 12.).sin()];
+                    // bisect the touching distance along this direction with the oracle
+                    let (mut lo, mut hi) = (0., 2.2 * r);
+                    for _ in 0..60 {
+                        let mid = 0.5 * (lo + hi);
+                        if depth(&body, &body.transformed(&lin.shifted(scale(dir, mid)))) > 0. {
+                            lo = mid;
+                        } else {
+                            hi = mid;
+                        }
+                    }
+                    for &off in [-6e-8, -2e-8, 2e-8, 6e-8].iter() {
+                        let t = scale(dir, hi + off);
+                        let d = depth(&body, &body.transformed(&lin.shifted(t)));
+                        if d.abs() <= 4. * BAND {
+                            continue;
+                        }
+                        near_axis += 1;
+                        let tb = Transform2::new(rot, (t[0], t[1]));
+                        let ans = match &shape {
+                            TestShape::Poly(s) => s.intersects(&s.transform(&tb)),
+                            TestShape::Mol(s) => s.intersects(&s.transform(&tb)),
+                        };
+                        if ans != (d > 0.) {
+                            run.fail(None, &format!("{}: a copy turned by {:e} and moved by ({}, {}) (built from angle and position) {} the first by {:e} but intersects() says {}", name, rot, t[0], t[1], if d > 0. { "overlaps" } else { "clears" }, d.abs(), if ans { "yes" } else { "no" }), json!({"engine": "constructor", "shape": name, "angle": rot, "translation": [t[0], t[1]], "oracle_depth": d}));
+                        }
+                    }
+                }
+            }
+        }
+    }
+    run.set("placements_built_from_angles_next_to_an_axis", near_axis);
     // depth-2 histories: every ordered pair of shapes (A, B); on a fresh thread A answers a few
     // placements, then B answers placements around its contact distance, judged by the oracle
     let mut pair_jobs: Vec<(usize, usize)> = vec![];
@@ -1228,7 +1307,7 @@ pub fn c02(tier: Tier) -> ! {
     let mut run = Run::new("C02", tier, "exploration");
     let shapes = c02_shapes(tier);
     let lengths = [0.5, 1., 3.7, 8., 100.];
-    let ratios = [1., 0.73, 0.34, 0.1];
+    let ratios = [1., 0.73, 0.34, 0.1, 1.6];
     let angles = [PI / 2., 1.3, PI / 3., PI / 6.];
     let results = par_map(&shapes, |_, spec| {
         let mut evals = 0u64;
@@ -1273,6 +1352,9 @@ pub fn c02(tier: Tier) -> ! {
                         let lat = p.lattice();
                         if let Some(score) = st.score() {
                             valid_states += 1;
+                            if st.cartesian().len() as f64 != n && fails.len() < 3 {
+                                fails.push((key, format!("{} {}: a score is reported for a cell that holds {} placed copies where the group has {}", g, spec.label(), st.cartesian().len(), n), json!({"group": g, "shape": spec.label(), "params": p.json()})));
+                            }
                             let want = n * want_area / lat.area();
                             let case = json!({"group": g, "shape": spec.label(), "params": p.json(), "score": score, "true_fraction": want});
                             if !(score.is_finite()) || !((score - want).abs() <= 1e-8 * want.abs()) {
@@ -1292,6 +1374,21 @@ pub fn c02(tier: Tier) -> ! {
                                 }
                             }
                         }
+                    }
+                }
+            }
+        }
+        // sites on symmetry elements (where copies coincide): if such a state is scored at all, it
+        // is scored with every copy of the group placed
+        for g in GROUP_NAMES.iter() {
+            let n = ita_ops(g).len();
+            let tpl = StateTemplate::new(g, &sj);
+            for &(x, y) in [(0.5, 0.5), (0., 0.), (-0.5, 0.), (0., 0.3), (0.5, 0.1), (0.25, 0.25), (-0.25, 0.)].iter() {
+                let p = Params { length: n as f64 * (4. * body.enclosing_radius() + 1.), ratio: 1., angle: PI / 2., x, y, phi: 0.3 };
+                if let Ok(st) = AnyState::from_json(&tpl.with(&p)) {
+                    evals += 1;
+                    if st.score().is_some() && st.cartesian().len() != n && fails.len() < 3 {
+                        fails.push((key, format!("{} {}: a score is reported for a cell that holds {} placed copies where the group has {} (site ({}, {}) on a symmetry element)", g, spec.label(), st.cartesian().len(), n, x, y), json!({"group": g, "shape": spec.label(), "params": p.json()})));
                     }
                 }
             }
@@ -1409,10 +1506,14 @@ pub fn c02(tier: Tier) -> ! {
             let tpl = StateTemplate::new(g, &sj);
             // (the last four: densities that differ in the 9th, 7th, 6th and 5th digit)
             for &(l, r) in [(30., 1.), (16., 0.5), (9., 0.8), (8.4, 0.3), (40., 0.25), (30. * (1. + 1e-9), 1.), (30. * (1. + 1e-7), 1.), (30. * (1. + 1e-6), 1.), (30. * (1. + 3e-5), 1.)].iter() {
-                let p = Params { length: l, ratio: r, angle: PI / 2., x: 0.13, y: 0.21, phi: 0.3 };
-                let st = AnyState::from_json(&tpl.with(&p)).unwrap();
-                if st.score().is_some() {
-                    pool.push((st, n * body.area() / p.lattice().area(), format!("{} l={} r={}", g, l, r)));
+                // (oblique groups also with skewed cells: equal sides, different areas)
+                let angles: Vec<f64> = if ita_family(g) == "Monoclinic" && (l == 30. || l == 16.) { vec![PI / 2., 1.0, 0.7] } else { vec![PI / 2.] };
+                for angle in angles {
+                    let p = Params { length: l, ratio: r, angle, x: 0.13, y: 0.21, phi: 0.3 };
+                    let st = AnyState::from_json(&tpl.with(&p)).unwrap();
+                    if st.score().is_some() {
+                        pool.push((st, n * body.area() / p.lattice().area(), format!("{} l={} r={} angle={}", g, l, r, angle)));
+                    }
                 }
             }
         }
